@@ -421,6 +421,8 @@ def replay(data):
     mon.scen.prepare(ctx, random.Random(1), rp['kind'], int(rp['word'], 16), mode=rp['mode'], ns=rp['ns'], regs=regs)
     ctx.cpu.registers.cpsr.value = int(rp['cpsr'], 16)
     ctx.cpu.registers.sctlr.v = rp.get('v', 0)
+    if rp.get('scr'):
+        ctx.cpu.registers.scr.value = int(rp['scr'], 16)
     pre = observe.snapshot(ctx.cpu)
     k, sig = mon.scen.step(ctx.cpu)
     post = observe.snapshot(ctx.cpu)
